@@ -954,7 +954,7 @@ MANI["C14"] = {
             "(a symbolic answer per callback invocation), against a reference walker that classifies each callback MUST / MUST-NOT / MAY; "
             "also handle release on every path and result codes.",
     "note": "storage API below the walker replaced by a symbolic tree (<= 2 blocks x 1-2 frames x 1-2 loops x 2 packets x 2 items); "
-            "permissive on end callbacks after SKIP answers (documentation silent); SKIP_SIBLINGS from end callbacks assumed away"}
+            "permissive on end callbacks after SKIP answers (documentation silent); SKIP_SIBLINGS from end callbacks assumed away; the handler's positive code is 7 on every shape and 1 (= CIF_FINISHED) on two"}
 
 MANI["C19"] = {
     "text": "Bounded model checking of the real value.c / map.c / packet.c: one list operation from every enumerated list state shape "
@@ -963,7 +963,8 @@ MANI["C19"] = {
             "(deep equality, no shared storage, independence under release / re-initialisation, no leak, CBMC memory checks).",
     "note": "shapes, operation kinds, indices and shape-changing key spellings are concrete per query instance and enumerated "
             "(a symbolic list index or key makes the heap shape symbolic and no back end finishes); element texts / values / lookup "
-            "keys are symbolic; uthash replaced by an API-compatible list model; ICU normalisation = identity + ASCII fold model"}
+            "keys are symbolic; cloned numbers are arbitrary states of the representation constructed directly (a number built by cif_value_parse_numb gives no verdict); "
+            "packets start from entries made by set_item and, separately, by cif_packet_create(names); uthash replaced by an API-compatible list model; ICU normalisation = identity + ASCII fold model"}
 
 MANI["C07"] = {
     "text": "Bounded model checking of the C half of value storage: the growable serialisation buffer (cif_buf_write: termination, capacity "
@@ -1006,7 +1007,7 @@ MANI["C04"] = {
     "text": "Bounded model checking of the C half of the data-model mechanism, per storage API function, for every engine outcome sequence: "
             "`name` parameters bound with the normalised spelling and `name_orig` with the caller's (by the column map extracted from "
             "the current sql.h), category as given, invalid codes/names refused with the documented code with nothing executed "
-            "(representative invalid strings; the predicate itself is C09), scalar category refused, handles from look-ups carry the name_orig column, nothing executed on "
+            "(representative invalid strings; the predicate itself is C09), scalar category refused, handles from look-ups and from the two enumerations (two-row results) carry the name_orig column, a handle on the scalar loop refuses every change of category, nothing executed on "
             "another CIF's connection.",
     "note": "PARTIAL by construction: the invariants of the data model (one name per container, one scalar loop, cascade on destroy, "
             "isolation of stored content) are enforced by the SQL schema inside libsqlite3, which cannot be encoded; a defect confined "
